@@ -315,4 +315,14 @@ theorem tie_cryption_model (noBody decryptErr : Bool) :
     ("next.ServeHTTP(cw, r)" ∈ cryptionEffects noBody decryptErr) ↔ (noBody = true ∨ decryptErr = false) := by
   cases noBody <;> cases decryptErr <;> simp [cryptionEffects]
 
+/-! ### round 5c: `ParseToken`'s retry structure -/
+
+/-- `TokenParser.ParseToken` executed symbolically (every call with the secret it is given) IS the model's call list, for
+every secret pair, both settings of "a previous secret is configured" and "the current secret's counter leads", and every
+outcome of the two verifications: the second attempt is a call of the SAME `doParseToken(r, ·)` with the OTHER secret, made
+only after the first failed; the counter of the secret that verified is incremented; nothing else decides the result -/
+theorem tie_parseTokenCalls (secret prev : String) (hasPrev lead : Bool) (err : String → Bool) :
+    Extracted.C18.parseTokenCalls secret prev hasPrev lead err = GoZero.C18.parseTokenCalls secret prev hasPrev lead err := by
+  cases hasPrev <;> cases lead <;> rfl
+
 end GoZero.C18.TieRest
